@@ -65,3 +65,85 @@ Proof.
   intros ue uc sk genv kenv <- E1 <- E2 <- E3. cbn. rewrite E1, E2, E3. unfold vstack.
   repeat split; destruct (genv "useEncryption"), (genv "useCompression"); reflexivity.
 Qed.
+
+(* ---------- round 5 ---------- *)
+Local Open Scope Z_scope.
+
+(* (1) allowed users travel unchanged *)
+Lemma gplumb_interp_id : forall t stages, gplumb_interp t = Some stages -> forall l, plumb_run stages l = l.
+Proof.
+  induction t as [|[[a b] rhs] t IH]; cbn; intros stages H l.
+  - injection H as <-. reflexivity.
+  - unfold gplumb_stage in H.
+    destruct (_ || _); [|discriminate]. destruct (gplumb_interp t) as [fs|]; [|discriminate].
+    injection H as <-. unfold plumb_run. cbn. apply (IH fs eq_refl).
+Qed.
+
+Theorem allow_plumbing_sound t :
+  gopt_is (gplumb_interp t) = true ->
+  exists stages, gplumb_interp t = Some stages /\
+    forall f c owner,
+      effective_allow stages f c owner =
+      match c with CAbsent => [owner] | CList [] => [owner] | CList (a :: l) => a :: l end.
+Proof.
+  destruct (gplumb_interp t) as [stages|] eqn:E; [|discriminate]. intros _. exists stages. split; [reflexivity|].
+  intros f c owner. unfold effective_allow. rewrite (gplumb_interp_id t stages E). now destruct c as [|[|a l]].
+Qed.
+
+(* (2) Run registers the configured key and the configured list, or [owner] when the list is empty *)
+Lemma grun_interp_sound r l o k p : grun_interp r l o k = Some p -> p = (k, vdefault_allow l o).
+Proof.
+  destruct r as [[[[[nm inits] ifs] largs] defers] total]. cbn.
+  destruct inits as [|i [|]]; try discriminate. destruct ifs as [|c [|v [|]]]; try discriminate.
+  destruct largs as [|x [|kk [|a [|]]]]; try discriminate. destruct defers; try discriminate.
+  destruct (_ && _); [|discriminate]. intros [= <-]. reflexivity.
+Qed.
+
+Definition gruns_ok (rows : list grun) : bool :=
+  Nat.eqb (length rows) 3 && forallb (fun r => gopt_is (grun_interp r [] [] [])) rows.
+
+Lemma grun_interp_total r : gopt_is (grun_interp r [] [] []) = true ->
+  forall l o k, grun_interp r l o k = Some (k, vdefault_allow l o).
+Proof.
+  intros H l o k. destruct (grun_interp r l o k) as [p|] eqn:E.
+  - now rewrite (grun_interp_sound _ _ _ _ _ E).
+  - exfalso. destruct r as [[[[[nm inits] ifs] largs] defers] total]. cbn in *.
+    destruct inits as [|i [|]]; try discriminate. destruct ifs as [|c [|v [|]]]; try discriminate.
+    destruct largs as [|x [|kk [|a [|]]]]; try discriminate. destruct defers; try discriminate.
+    destruct (_ && _); discriminate.
+Qed.
+
+Theorem server_runs_sound rows :
+  gruns_ok rows = true ->
+  forall r, In r rows -> forall l o k, grun_interp r l o k = Some (k, vdefault_allow l o).
+Proof.
+  unfold gruns_ok. intros H r Hin. apply andb_prop in H as [_ H]. rewrite forallb_forall in H.
+  apply grun_interp_total. now apply H.
+Qed.
+
+(* (3) both ends of every leg use the key class the leg calls for *)
+Definition gleg_ok (t : gtables) (l : leg) : bool :=
+  negb (Nat.eqb (length (gleg_ends t l)) 0) &&
+  forallb (fun e : keyclass * keyclass => keyclass_eqb (fst e) (leg_key l) && keyclass_eqb (snd e) (leg_key l)) (gleg_ends t l).
+
+Definition gsite_shape_ok (s : gsite) : bool := gopt_is (gsite_key s).
+
+Definition gkeys_ok (t : gtables) : bool :=
+  forallb (gleg_ok t) gall_legs &&
+  Nat.eqb (length (gt_xtcp_streams t)) 2 && Nat.eqb (length (gt_inwork t)) 1 &&
+  gsite_shape_ok (gt_handle t) && gsite_shape_ok (gt_sudp_owner t) && gsite_shape_ok (gt_server_work t).
+
+Lemma keyclass_eqb_eq a b : keyclass_eqb a b = true -> a = b.
+Proof. destruct a, b; cbn; congruence. Qed.
+
+Theorem leg_keys_sound t :
+  gkeys_ok t = true ->
+  forall l, In l gall_legs ->
+    gleg_ends t l <> [] /\ forall e, In e (gleg_ends t l) -> e = (leg_key l, leg_key l).
+Proof.
+  unfold gkeys_ok. intros H l Hin. do 5 (apply andb_prop in H as [H _]).
+  rewrite forallb_forall in H. specialize (H l Hin). unfold gleg_ok in H.
+  apply andb_prop in H as [H0 H]. split; [destruct (gleg_ends t l); [discriminate H0|discriminate]|].
+  rewrite forallb_forall in H. intros [a b] He. specialize (H _ He). cbn in H.
+  apply andb_prop in H as [H1 H2]. apply keyclass_eqb_eq in H1, H2. now subst.
+Qed.
